@@ -47,9 +47,10 @@ def storedAsF64Bits : Stored → Nat
   | .f64 b => b.toNat
 
 def fileJson (f : EmFile Stored) (withHex : Bool) : Json :=
-  Json.mkObj ([("dims", Json.arr #[f.dimX, f.dimY, f.dimZ]), ("dtype", (f.dtype : Json)),
-              ("data", Json.arr (f.data.map (fun x => (storedBits x : Json))).toArray)]
-              ++ (if withHex then [("hex", Json.str (toHex (encodeEm f)))] else []))
+  -- with `hex` the cells travel once, as the file's bytes; the cell list is only sent where no bytes are asked for
+  Json.mkObj ([("dims", Json.arr #[f.dimX, f.dimY, f.dimZ]), ("dtype", (f.dtype : Json))]
+              ++ (if withHex then [("hex", Json.str (toHex (encodeEm f)))]
+                  else [("data", Json.arr (f.data.map (fun x => (storedBits x : Json))).toArray)]))
 
 def tableJson (t : Table Stored) : Json :=
   Json.mkObj [("cols", Json.arr (t.cols.map (fun f => Json.str f.name)).toArray),
